@@ -140,9 +140,14 @@ func normalizeSearchableComparison(expr *sqlparser.ComparisonExpr, isSearchColum
 		}
 	}
 	if lColumn, leftIsColumn := expr.Left.(*sqlparser.ColName); leftIsColumn && isSearchColumn(lColumn) {
-		if unary, ok := expr.Right.(*sqlparser.UnaryExpr); ok && strings.TrimSpace(unary.Operator) == "_binary" {
-			if inner, ok := unary.Expr.(*sqlparser.SQLVal); ok {
-				expr.Right = inner
+		// only where the value is going to be rewritten (equality with a supported literal): any other
+		// comparison (>, <, like ...) is left in the statement and must keep its binary comparison
+		switch expr.Operator {
+		case sqlparser.EqualStr, sqlparser.NotEqualStr, sqlparser.NullSafeEqualStr:
+			if unary, ok := expr.Right.(*sqlparser.UnaryExpr); ok && strings.TrimSpace(unary.Operator) == "_binary" {
+				if inner, ok := unary.Expr.(*sqlparser.SQLVal); ok && isSupportedSQLVal(inner) {
+					expr.Right = inner
+				}
 			}
 		}
 	}
